@@ -61,7 +61,7 @@ def mk_list(items: list[list[str]], marker: str, loose: bool, depth: int = 0) ->
     return out
 
 
-ITEM_PATTERNS = [["P"], ["P", "P"], ["P", "C"], ["P", "Q"], ["P", "L"], ["P", "L1"], ["P", "QH"], ["P", "QR"], ["P", "H"], ["P", "R"], ["Q"], ["C"]]
+ITEM_PATTERNS = [["P"], ["P", "P"], ["P", "C"], ["P", "Q"], ["P", "L"], ["P", "L1"], ["P", "QH"], ["P", "QR"], ["P", "H"], ["P", "R"], ["Q"], ["C"], ["H"], ["R"]]
 
 
 def list_docs(tier: str) -> Iterator[dict[str, Any]]:
